@@ -262,7 +262,7 @@ func genFields(t *rapid.T) []FieldSpec {
 					f.Tags["json"] = strings.ToUpper(pk)
 				}
 			}
-			if strings.HasPrefix(f.Tags["json"], "j_f") && rapid.IntRange(0, 5).Draw(t, "unexportedTwin") == 0 {
+			if strings.HasPrefix(f.Tags["json"], "j_f") && rapid.IntRange(0, 2).Draw(t, "unexportedTwin") == 0 {
 				f.UnexportedTwin = true
 			}
 			if _, has := f.Tags["json"]; !has && rapid.IntRange(0, 4).Draw(t, "jsonSkipped") == 0 {
@@ -399,7 +399,13 @@ func genReq(t *rapid.T, fs []FieldSpec, allowInvalid bool) (ReqSpec, bool) {
 			caseTwins = true
 		}
 	}
-	if r.Body == "json" && !caseTwins && rapid.IntRange(0, 3).Draw(t, "jsonKeysInAnotherCase") == 0 {
+	odds := 3
+	for i := range fs {
+		if fs[i].UnexportedTwin {
+			odds = 1
+		}
+	}
+	if r.Body == "json" && !caseTwins && rapid.IntRange(0, odds).Draw(t, "jsonKeysInAnotherCase") == 0 {
 		r.JSONKeyCase = rapid.IntRange(1, 3).Draw(t, "jsonKeyCase")
 	}
 	if r.Body == "json" {
